@@ -721,9 +721,12 @@ fn c05_check(rep: &mut Report, buf: &[u8], desc: &dyn Fn() -> serde_json::Value)
     }
 }
 
-pub fn c05(ctx: &Ctx) -> (Report, Meta) {
-    let maxlen = ctx.tier.pick(10usize, 11usize);
-    let depth = ctx.tier.pick(4usize, 6usize);
+pub type Visit<'a> = &'a (dyn Fn(&mut Report, &[u8], &dyn Fn() -> serde_json::Value) + Sync);
+
+/// The buffer sets of C05 (also used by C02's raw-buffer part): (a) alphabet strings, (b) token streams, (c) long buffers.
+pub fn enumerate_buffers(tier: Tier, visit: Visit) -> Report {
+    let maxlen = tier.pick(10usize, 11usize);
+    let depth = tier.pick(4usize, 6usize);
     let alpha = c05_alphabet();
     // (a) strings: shard on the first 3 symbols
     let parts = par_shards(216, |sh| {
@@ -734,7 +737,7 @@ pub fn c05(ctx: &Ctx) -> (Report, Meta) {
             // lengths 0..=2 once
             for s in seqs(6, 2) {
                 let b: Vec<u8> = s.iter().map(|x| alpha[*x as usize]).collect();
-                c05_check(&mut rep, &b, &|| json!("string over alphabet"));
+                visit(&mut rep, &b, &|| json!("string over alphabet"));
                 rep.states += 1;
             }
         }
@@ -745,7 +748,7 @@ pub fn c05(ctx: &Ctx) -> (Report, Meta) {
             buf.clear();
             buf.extend_from_slice(&pre);
             buf.extend(idx.iter().map(|i| alpha[*i]));
-            c05_check(&mut rep, &buf, &|| json!("string over alphabet"));
+            visit(&mut rep, &buf, &|| json!("string over alphabet"));
             rep.states += 1;
             // next
             if idx.len() < maxlen - 3 {
@@ -789,7 +792,7 @@ pub fn c05(ctx: &Ctx) -> (Report, Meta) {
             for t in s {
                 b.extend_from_slice(&toks[*t as usize].1);
             }
-            c05_check(&mut rep, &b, &|| json!({"tokens": s.iter().map(|t| toks[*t as usize].0).collect::<Vec<_>>()}));
+            visit(&mut rep, &b, &|| json!({"tokens": s.iter().map(|t| toks[*t as usize].0).collect::<Vec<_>>()}));
             rep.states += 1;
         }
         watch_leave();
@@ -818,16 +821,29 @@ pub fn c05(ctx: &Ctx) -> (Report, Meta) {
         }),
     ];
     // every truncation of two maximum frames, in steps (thorough: every length)
-    let step = ctx.tier.pick(37, 1);
+    let step = tier.pick(37, 1);
     let mut t = 0;
     while t < two.len() {
         longs.push(("truncation of two maximum frames", two[..t].to_vec()));
         t += step;
     }
     for (name, b) in &longs {
-        c05_check(&mut rep, b, &|| json!({"long": name, "len": b.len()}));
+        visit(&mut rep, b, &|| json!({"long": name, "len": b.len()}));
         rep.states += 1;
     }
+    rep.extra.insert("string_maxlen".into(), json!(maxlen));
+    rep.extra.insert("alphabet_strings".into(), json!(n_strings));
+    rep.extra.insert("token_depth".into(), json!(depth));
+    rep.extra.insert("long_buffers".into(), json!(longs.len()));
+    rep
+}
+
+pub fn c05(ctx: &Ctx) -> (Report, Meta) {
+    let mut rep = enumerate_buffers(ctx.tier, &|rep, buf, desc| c05_check(rep, buf, desc));
+    let maxlen = ctx.tier.pick(10usize, 11usize);
+    let depth = ctx.tier.pick(4usize, 6usize);
+    let alpha = c05_alphabet();
+    let toks = tokens();
     rep.distinct_nontrivial = rep.outcomes.iter().filter(|(k, _)| k.starts_with("delivered")).map(|(_, v)| *v).sum();
     rep.sample(json!({"string": hex(&[0xD3,0x00,0x00,alpha[2],alpha[3],alpha[4]]), "expect":"delivered@0, consumed 6"}));
     rep.sample(json!({"tokens":["1005[..12]","L0"],"expect":"stalled on the incomplete candidate at 0"}));
@@ -835,7 +851,7 @@ pub fn c05(ctx: &Ctx) -> (Report, Meta) {
     let meta = Meta {
         rule: "every byte string over {D3,00,c1,c2,c3,01} (c1..c3 = CRC of D3 00 00) up to maxlen; every sequence of <= depth tokens (valid frames, nested frame, damaged frames, truncation classes, stray bytes, header announcing 1023 bytes); long buffers beyond 1029 bytes. Each buffer: next_msg_frame vs. reference scanner, derived dead-byte check, MsgFrameIter vs. repeated reference scans. distinct_nontrivial = buffers in which a frame was delivered".into(),
         exhaustive: true,
-        bounds: json!({"string_maxlen": maxlen, "strings": n_strings, "token_depth": depth, "tokens": toks.iter().map(|t| t.0).collect::<Vec<_>>(), "long_buffers": longs.len()}),
+        bounds: json!({"string_maxlen": maxlen, "token_depth": depth, "tokens": toks.iter().map(|t| t.0).collect::<Vec<_>>()}),
         assumptions: vec![],
     };
     (rep, meta)
